@@ -84,7 +84,10 @@ def static_case(ctx, rng, idx):
     h, uni = gen_hypergraph(rng)
     static_eval(ctx, rng, idx, h)
     from ..mutate import same_count_edit
+    from hypergraphx.measures import s_centralities as sc
 
+    for fn in (sc.s_betweenness, sc.s_closeness, sc.s_betweenness_nodes, sc.s_closeness_nodes):
+        call(fn, h)  # warm any memo keyed on this object right before it is edited in place
     if same_count_edit(rng, h):
         ctx.event("re-evaluated-after-in-place-edit")
         static_eval(ctx, rng, idx, h)
@@ -277,7 +280,11 @@ def eigen_case(ctx, rng, idx):
     h.add_nodes(nodes)
     eigen_eval(ctx, rng, idx, h, k, N)
     from ..mutate import same_count_edit
+    from hypergraphx.measures import eigen_centralities as ec
 
+    # the last calls before the edit are on this very object (a single-entry memo keyed on it must be warm)
+    call(quiet, ec.CEC_centrality, h)
+    call(quiet, ec.HEC_centrality, h)
     if same_count_edit(rng, h, uniform_size=k, keep_connected=True):  # same object, same counts, other hyperedges
         ctx.event("re-evaluated-after-in-place-edit")
         eigen_eval(ctx, rng, idx, h, k, N)
